@@ -101,6 +101,7 @@ class ToJson(Contract):
 # ---- bounded: the algebraic laws on the real classes --------------------------------------------------------
 
 COMPS = ['', '.', '..', 'a', 'b.c', 'a b', '..x']
+TILDE_COMPS = ['.', '~', 'a', '~x']       # a first component that starts with `~` (known finding)
 
 
 def oracle_norm(comps):
@@ -131,6 +132,10 @@ class PathLaws(Bounded):
         for n in range(0, 5):
             for t in _it.product(COMPS, repeat=n):
                 yield {'comps': list(t)}
+        for n in range(2, 4):
+            for t in _it.product(TILDE_COMPS, repeat=n):
+                if t[0] == '.' and any(c.startswith('~') for c in t):
+                    yield {'comps': list(t), 'tilde': True}
 
     def native_check(self, case, raw):
         P = PosixPath if case == 'posix' else WindowsPath
